@@ -232,6 +232,16 @@ func c07SpecGen(t *rapid.T) c07Spec {
 		// mode "users": authInternalUsers with plain / hashed passwords
 		sp.classes = append(sp.classes, "mode-users")
 		nusers := rapid.IntRange(0, 4).Draw(t, "nusers")
+		// the user table (and its secrets) also exists in the configuration when another authentication
+		// method is selected (round-2 seeded change on C07)
+		switch rapid.SampledFrom([]string{"internal", "internal", "http", "jwt"}).Draw(t, "authMethod") {
+		case "http":
+			y.WriteString("authMethod: http\nauthHTTPAddress: http://127.0.0.1:9/auth\n")
+			sp.classes = append(sp.classes, "authMethod-http")
+		case "jwt":
+			y.WriteString("authMethod: jwt\nauthJWTJWKS: http://127.0.0.1:9/jwks.json\n")
+			sp.classes = append(sp.classes, "authMethod-jwt")
+		}
 		y.WriteString("authInternalUsers:\n")
 		fmt.Fprintf(&y, "- user: any\n  ips: ['127.0.0.1']\n  permissions:\n  - action: api\n")
 		for i := 0; i < nusers; i++ {
